@@ -8,8 +8,10 @@ import (
 	"io"
 	"mime/multipart"
 	"net/http"
+	"os"
 	"path"
 	"runtime"
+	"strings"
 	"time"
 )
 
@@ -90,4 +92,30 @@ func vfUploadFile(e *vfEnv, u *vfUser, data []byte) string {
 		panic("vfUploadFile: no url in reply: " + string(body))
 	}
 	return path.Base(url)
+}
+
+// vfSrvLogGrep returns the last n server log lines containing any of the given substrings
+// (diagnostics for witnesses only; empty if the server log is not kept).
+func vfSrvLogGrep(n int, subs ...string) []string {
+	p := os.Getenv("VF_SRVLOG")
+	if p == "" {
+		return nil
+	}
+	b, err := os.ReadFile(p)
+	if err != nil {
+		return nil
+	}
+	var out []string
+	for _, ln := range strings.Split(string(b), "\n") {
+		for _, sub := range subs {
+			if sub != "" && strings.Contains(ln, sub) {
+				out = append(out, ln)
+				break
+			}
+		}
+	}
+	if len(out) > n {
+		out = out[len(out)-n:]
+	}
+	return out
 }
